@@ -377,7 +377,23 @@ def run(ctx, anchors=None):
             key = "index=%s@%s:%s" % (fld, f.name, astq.estr(n["rhs"])[:30])
             # accepted: loop position over the same container
             rhs = n["rhs"]
+            while rhs is not None and rhs.get("k") == "cast":
+                rhs = rhs["e"]
             if rhs.get("k") == "ref" and rhs.get("dk") == "local":
+                # position of a canonical index loop `for (i = 0; i < <cont>.size(); ++i)` (hoisted aliases of the container expanded)
+                from . import common as _c15
+                idxloop = False
+                for a in f.ancestors(n):
+                    if a.get("k") == "for" and a.get("cond") is not None and a.get("init") is not None and a["init"].get("k") == "decl":
+                        d0 = a["init"]["decls"][0]
+                        ctext = _c15.xstr(f, a["cond"]).replace(" ", "")
+                        inc = a.get("inc")
+                        if d0.get("d") == rhs.get("d") and astq.const_value(d0.get("init")) == 0 and ctext.startswith("(%s<" % rhs["n"]) and ("%s.size()" % cont) in ctext \
+                                and inc is not None and inc.get("k") == "un" and inc.get("op") == "++" and inc["e"].get("d") == rhs.get("d"):
+                            idxloop = True
+                if idxloop:
+                    ctx.ok("R15.3", key, f.loc(n), "%s is the index of a loop bounded by %s->%s.size()" % (fld, owner, cont))
+                    continue
                 fr = [a for a in f.ancestors(n) if a.get("k") == "forrange" and cont in astq.estr(a.get("range"))]
                 incs = [m for m in f.nodes() if m["k"] == "un" and m["op"] == "++" and m["e"].get("k") == "ref" and m["e"].get("d") == rhs["d"]]
                 if fr and len(incs) == 1 and any(S.contains(fr[0]["body"], incs[0]) for _ in [0]):
